@@ -707,6 +707,10 @@ var c02HsTable = []c02Cfg{
 	{via: "dial", role: "client", mode: "no-context-takeover", ext: "permessage-deflate", want: "client-nct"},
 	{via: "dial", role: "client", mode: "no-context-takeover", ext: "permessage-deflate; server_no_context_takeover", want: "nct-both"},
 	{via: "dial", role: "client", mode: "no-context-takeover", ext: "permessage-deflate; client_no_context_takeover; server_no_context_takeover", want: "nct-both"},
+	// a valued parameter in front of the flag that decides how this endpoint compresses
+	{via: "dial", role: "client", mode: "context-takeover", ext: "permessage-deflate; server_max_window_bits=15; client_no_context_takeover", want: "client-nct"},
+	{via: "dial", role: "client", mode: "context-takeover", ext: "permessage-deflate; client_no_context_takeover; server_max_window_bits=15", want: "client-nct"},
+	{via: "accept", role: "server", mode: "context-takeover", ext: "permessage-deflate; client_max_window_bits=15; server_no_context_takeover", want: "server-nct"},
 	{via: "dial", role: "client", mode: "context-takeover", ext: "", want: "off"},
 	{via: "dial", role: "client", mode: "disabled", ext: "", want: "off"},
 }
